@@ -340,7 +340,7 @@ package l1infotreesync
 //@   ensures result1 != nil ==> result0 == nil
 //@   ensures result1 == nil ==> result0 != nil && parsedVerifyTA == result0
 
-//@ func buildAppender$2 (b, l)
+//@ func buildAppender$2 (b, l | ger)
 //@   props C11 C05
 //@   requires b != nil && ger != nil
 //@   modifies b.Events, parsedUpdate
@@ -348,7 +348,7 @@ package l1infotreesync
 //@   ensures[one-event-per-log] result == nil ==> len(b.Events) == old(len(b.Events)) + 1 && forall(k, 0, old(len(b.Events)), b.Events[k] == old(b.Events[k]))
 //@   ensures[the-update-carries-the-logs-roots-and-the-blocks-parent-and-time] result == nil ==> typeIs(b.Events[len(b.Events) - 1], Event) && unbox(b.Events[len(b.Events) - 1], Event).UpdateL1InfoTree != nil && unbox(b.Events[len(b.Events) - 1], Event).VerifyBatches == nil && unbox(b.Events[len(b.Events) - 1], Event).UpdateL1InfoTree.BlockPosition == l.Index && unbox(b.Events[len(b.Events) - 1], Event).UpdateL1InfoTree.MainnetExitRoot == hashOf(parsedUpdate.MainnetExitRoot) && unbox(b.Events[len(b.Events) - 1], Event).UpdateL1InfoTree.RollupExitRoot == hashOf(parsedUpdate.RollupExitRoot) && unbox(b.Events[len(b.Events) - 1], Event).UpdateL1InfoTree.ParentHash == b.ParentHash && unbox(b.Events[len(b.Events) - 1], Event).UpdateL1InfoTree.Timestamp == b.Timestamp
 
-//@ func buildAppender$4 (b, l)
+//@ func buildAppender$4 (b, l | rm)
 //@   props C11 C05
 //@   requires b != nil && rm != nil
 //@   modifies b.Events, parsedVerify
@@ -356,7 +356,7 @@ package l1infotreesync
 //@   ensures[one-event-per-log] result == nil ==> len(b.Events) == old(len(b.Events)) + 1 && forall(k, 0, old(len(b.Events)), b.Events[k] == old(b.Events[k]))
 //@   ensures[the-verification-carries-the-logs-rollup-and-exit-root] result == nil ==> typeIs(b.Events[len(b.Events) - 1], Event) && unbox(b.Events[len(b.Events) - 1], Event).VerifyBatches != nil && unbox(b.Events[len(b.Events) - 1], Event).UpdateL1InfoTree == nil && unbox(b.Events[len(b.Events) - 1], Event).VerifyBatches.BlockPosition == l.Index && unbox(b.Events[len(b.Events) - 1], Event).VerifyBatches.RollupID == parsedVerify.RollupID && unbox(b.Events[len(b.Events) - 1], Event).VerifyBatches.NumBatch == parsedVerify.NumBatch && unbox(b.Events[len(b.Events) - 1], Event).VerifyBatches.ExitRoot == hashOf(parsedVerify.ExitRoot)
 
-//@ func buildAppender$5 (b, l)
+//@ func buildAppender$5 (b, l | rm)
 //@   props C11 C05
 //@   requires b != nil && rm != nil
 //@   modifies b.Events, parsedVerifyTA
